@@ -7,7 +7,59 @@
 #include "shapes.hpp"
 #include <numeric>
 
+// ---- "big": initialisation of a mesh with 65538 nodes / 131072 triangles given with mixed windings, naturally numbered and
+// renumbered (reversed node numbering, rotated triangle order).  Too large for TLC to recompute the quantities: the driver compares
+// with its own long-double evaluation on the consistently wound source mesh and logs verdicts.
+static int run_big(const char* out_path) {
+    FILE* fo = fopen(out_path, "w");
+    shapes::tmesh src = shapes::sphere(7);
+    for (size_t i = 0; i < src.pos.size(); i++) src.pos[i] = src.pos[i] * (i % 3 == 0 ? 1.3 : i % 3 == 1 ? 1.0 : 0.8) * 1e-5 + (i % 3 == 0 ? 3e-4 : i % 3 == 1 ? -1e-4 : 2e-4);
+    const size_t nn = src.nn(), nf = src.tris.size() / 3;
+    long double vol = 0, area = 0;
+    for (size_t f = 0; f < nf; f++) {
+        long double P[3][3]; for (int k = 0; k < 3; k++) for (int a = 0; a < 3; a++) P[k][a] = src.pos[3 * src.tris[3 * f + k] + a] - (a == 0 ? 3e-4L : a == 1 ? -1e-4L : 2e-4L);
+        const long double cx = P[1][1] * P[2][2] - P[1][2] * P[2][1], cy = P[1][2] * P[2][0] - P[1][0] * P[2][2], cz = P[1][0] * P[2][1] - P[1][1] * P[2][0];
+        vol += (P[0][0] * cx + P[0][1] * cy + P[0][2] * cz) / 6;
+        long double u[3], v[3]; for (int a = 0; a < 3; a++) { u[a] = P[1][a] - P[0][a]; v[a] = P[2][a] - P[0][a]; }
+        const long double nx = u[1] * v[2] - u[2] * v[1], ny = u[2] * v[0] - u[0] * v[2], nz = u[0] * v[1] - u[1] * v[0];
+        area += sqrtl(nx * nx + ny * ny + nz * nz) / 2;
+    }
+    for (int variant = 0; variant < 2; variant++) {
+        std::vector<double> pos(src.pos.size()); std::vector<unsigned> tris(src.tris.size());
+        auto nid = [&](unsigned i) { return variant == 0 ? i : (unsigned)(nn - 1 - i); };
+        for (size_t i = 0; i < nn; i++) for (int a = 0; a < 3; a++) pos[3 * nid((unsigned)i) + a] = src.pos[3 * i + a];
+        for (size_t f = 0; f < nf; f++) {
+            const size_t slot = variant == 0 ? f : (f + 12345) % nf;
+            unsigned a = nid(src.tris[3 * f]), b = nid(src.tris[3 * f + 1]), c = nid(src.tris[3 * f + 2]);
+            if (f % 3 == 1 || f == 0) std::swap(b, c);               // mixed windings, first face inward
+            tris[3 * slot] = a; tris[3 * slot + 1] = b; tris[3 * slot + 2] = c;
+        }
+        cell_ptr c = std::make_shared<cell>(pos, tris, 0);
+        std::string err;
+        try { c->initialize_cell_properties(true); } catch (std::exception& e) { err = e.what(); }
+        bool normals_ok = err.empty(); size_t inward = 0;
+        if (err.empty()) {
+            const vec3 cen = c->compute_centroid();
+            auto& N = cell_tester::nodes(*c);
+            for (auto& f : cell_tester::faces(*c)) if (f.is_used()) {
+                auto t = cell_tester::tri(f);
+                const vec3 w = (N[t[1]].pos() - N[t[0]].pos()).cross(N[t[2]].pos() - N[t[0]].pos());
+                const vec3 fc = (N[t[0]].pos() + N[t[1]].pos() + N[t[2]].pos()) / 3.;
+                if (!(w.dot(f.get_normal()) > 0.) || !(f.get_normal().dot(fc - cen) > 0.)) { normals_ok = false; inward++; }      // the ellipsoid is star-shaped about its centroid
+            }
+        }
+        vj::out o;
+        o.obj().key("op").str(variant == 0 ? "big_natural" : "big_renumbered").key("error").str(err).key("nn").i(nn).key("nf").i(nf);
+        o.key("vol_ok").b(err.empty() && std::abs((long double)c->get_volume() - vol) <= 1e-7L * vol).key("area_ok").b(err.empty() && std::abs((long double)c->get_area() - area) <= 1e-9L * area);
+        o.key("normals_ok").b(normals_ok).key("inward").i(inward).end_obj();
+        fprintf(fo, "%s\n", o.text().c_str()); fflush(fo);
+    }
+    fclose(fo);
+    return 0;
+}
+
 int main(int argc, char** argv) {
+    if (argc >= 3 && std::string(argv[1]) == "big") return run_big(argv[2]);
     if (argc < 3) return 2;
     auto cases = vj::read_ndjson(argv[1]);
     FILE* fo = fopen(argv[2], "w");
